@@ -6,6 +6,7 @@ ALL = [f"C{i:02d}" for i in range(1, 21)]
 CHECKS = {}   # id -> dict(category, text, note, technique, design_ref)
 exec(open(os.path.join(HERE, "manifest_table.py")).read())
 checks = []
+SERVED.extend(sorted(CHECKS))
 for pid in ALL:
     c = CHECKS.get(pid)
     if not c:
